@@ -252,10 +252,12 @@ def run(prog, rep, tier):
             rep.examined(R122, "%s|%s" % (rid, str(s)[:60]), sample=s)
     s2 = _sub(prog, rep, c02, "C02")
     for (rid, key, what, detail) in s2.violations:
-        if rid in ("R2.4",):
-            rep.violation(R122, key.split("|", 1)[1], what)
-    for s in s2.rules.get("R2.4", {}).get("samples", []):
-        rep.examined(R122, "R2.4|%s" % str(s)[:60], sample=s)
+        if rid in ("R2.4", "R2.9"):
+            # R2.9: whether a message is cut at the end of block zero depends on where the block ends
+            rep.violation(R122, key.split("|", 1)[1] + ("" if rid == "R2.4" else "|" + rid), what)
+    for rid in ("R2.4", "R2.9"):
+        for s in s2.rules.get(rid, {}).get("samples", []):
+            rep.examined(R122, "%s|%s" % (rid, str(s)[:60]), sample=s)
 
     # ------------------------------------------------------------ R12.3
     cb = prog.body("s4::cli_process_blocksz")
